@@ -108,7 +108,7 @@ fn main() {
             let inst = match all.iter().find(|i| i.name == name) {
                 Some(i) => i,
                 None => {
-                    eoutln!("MACHINERY-ERROR unknown instance {}", name);
+                    eprintln!("MACHINERY-ERROR unknown instance {}", name);
                     std::process::exit(2);
                 }
             };
@@ -142,7 +142,7 @@ fn main() {
             let build = j["build"].as_str().unwrap_or("small");
             let mine = if cfg!(feature = "small") { "small" } else { "ship" };
             if build != mine {
-                eoutln!("MACHINERY-ERROR this replay was recorded with the '{}' build, this binary is '{}'", build, mine);
+                eprintln!("MACHINERY-ERROR this replay was recorded with the '{}' build, this binary is '{}'", build, mine);
                 std::process::exit(2);
             }
             let name = j["instance"].as_str().unwrap().to_string();
@@ -447,7 +447,7 @@ fn main() {
             std::process::exit(if violations > 0 { 1 } else if !machinery.is_empty() { 2 } else { 0 });
         }
         _ => {
-            eoutln!("usage: vh selftest | list | run <pattern> [cfg] | prop <Cxx> --tier quick|thorough | replay <file> | trace <instance> <choices> [cfg]");
+            eprintln!("usage: vh selftest | list | run <pattern> [cfg] | prop <Cxx> --tier quick|thorough | replay <file> | trace <instance> <choices> [cfg]");
             std::process::exit(2);
         }
     }
